@@ -682,10 +682,12 @@ fn run_modifiers_case(i: u64, rng: &mut Rng, rep: &mut Report, verbose: bool) {
     let delays: std::collections::HashMap<u64, u64> = steps.iter().enumerate().map(|(k, s)| (i * 100 + k as u64, s.delay_ms)).collect();
     let rt = runtime(rng.next());
     let steps2 = steps.clone();
-    let (outs, log) = rt.block_on(async move {
+    let (outs, log, early_n) = rt.block_on(async move {
         let c = connect();
         let mut ldap = c.ldap;
         let mut server = c.server;
+        let early = std::sync::Arc::new(std::sync::atomic::AtomicU64::new(0));
+        let early2 = early.clone();
         let srv = tokio::spawn(async move {
             let tx = server.tx();
             while let Some(w) = server.request().await {
@@ -695,6 +697,14 @@ fn run_modifiers_case(i: u64, rng: &mut Rng, rep: &mut Report, verbose: bool) {
                     if d == 0 {
                         tx.send(&b);
                     } else {
+                        // a Search gets part of its answer at once: the timeout set for it governs
+                        // the whole operation, not only the wait for the first reply
+                        if let Req::Search { .. } = &m.op {
+                            if m.id % 2 == 0 {
+                                tx.send(&resp_bytes(m.id, &crate::msg::Resp::Entry { dn: b"cn=first".to_vec(), attrs: vec![] }, None));
+                                early.fetch_add(1, std::sync::atomic::Ordering::SeqCst);
+                            }
+                        }
                         let tx = tx.clone();
                         tokio::spawn(async move {
                             tokio::time::sleep(Duration::from_millis(d)).await;
@@ -714,8 +724,9 @@ fn run_modifiers_case(i: u64, rng: &mut Rng, rep: &mut Report, verbose: bool) {
         drop(ldap);
         let log = srv.await.unwrap_or_default();
         let _ = c.driver.await;
-        (outs, log)
+        (outs, log, early2.load(std::sync::atomic::Ordering::SeqCst))
     });
+    rep.count("searches_answered_in_two_parts", early_n);
     let replay = json!({"lane":"modifiers","case":i});
     // index wire requests by token
     let mut by_tok: std::collections::HashMap<u64, Vec<&ReqMsg>> = Default::default();
